@@ -492,7 +492,7 @@ class Table:
 # ----------------------------------------------------------------------------
 NUMERIC_MODULES = {'np', 'numpy', 'math', 'numba', 'scipy', 'sp'}
 ERASED_CALLS = {'float', 'float64', 'asarray', 'array', 'ravel', 'flatten',
-                'copy', 'ascontiguousarray', 'squeeze'}
+                'copy', 'ascontiguousarray', 'squeeze', 'tolist'}
 PI_NAMES = {'pi', 'PI'}
 
 
@@ -617,6 +617,12 @@ class Conv:
                                     self.expr(n.orelse)))
         if isinstance(n, (ast.Tuple, ast.List)):
             return t.atom('tuple', tuple(self.expr(e) for e in n.elts))
+        if isinstance(n, ast.Dict) and all(k is not None for k in n.keys):
+            flat = []
+            for k, v in zip(n.keys, n.values):
+                flat.append(self.expr(k))
+                flat.append(self.expr(v))
+            return t.atom('dict', tuple(flat))
         if isinstance(n, ast.Starred):
             return t.atom('star', (self.expr(n.value),))
         if isinstance(n, ast.JoinedStr):
